@@ -70,15 +70,15 @@ type Abstract struct {
 }
 
 type GlobalFact struct {
-	Kind  string // axiom | lemma
-	Name  string
-	Pkg   string
-	Props []string
-	Text  string
-	Expr  ast.Expr
-	Where string
-	Using []string // axioms a lemma may use
-	Hidden bool    // only available to functions/lemmas that name it with `uses`
+	Kind   string // axiom | lemma
+	Name   string
+	Pkg    string
+	Props  []string
+	Text   string
+	Expr   ast.Expr
+	Where  string
+	Using  []string // axioms a lemma may use
+	Hidden bool     // only available to functions/lemmas that name it with `uses`
 }
 
 type GhostDecl struct {
